@@ -218,6 +218,9 @@ class Check:
         from concurrent.futures import ThreadPoolExecutor
         with ThreadPoolExecutor(max_workers=NCPU) as ex:
             outs = list(ex.map(lambda f: coqc_file(f, timeout=timeout), files))
+        # a coqc that died without a word (killed for memory when the machine is crowded) is run again, alone; a file that really does not
+        # compile fails again and is reported
+        outs = [o if o[0] == 0 or o[1].strip() else coqc_file(f, timeout=timeout) for f, o in zip(files, outs)]
         return dict(zip(files, outs))
 
     # -- verdicts -----------------------------------------------------------
